@@ -196,8 +196,15 @@ def inherit_ok(ci: int, ipv: int) -> bool:
             if v is not None:
                 slots[k].attrs[an] = v
         if meta_val is not None:
-            slots['meta'].attrs['http-equiv'] = 'Content-Language'
-            slots['meta'].attrs['content'] = meta_val
+            # attribute order varies (parsers preserve source order): content before or after http-equiv
+            if (ci + ipv) % 2:
+                slots['meta'].attrs['content'] = meta_val
+                slots['meta'].attrs['http-equiv'] = 'Content-Language'
+            else:
+                slots['meta'].attrs['http-equiv'] = 'Content-Language'
+                slots['meta'].attrs['content'] = meta_val
+            if ci % 3 == 0:
+                slots['meta'].attrs['name'] = 'x'
         ok = True
         for (stext, _), c in zip(SELS, CSEL):
             selected = set(id(e) for e in c.select(soup))
